@@ -4,7 +4,7 @@
 // @module file=sm4/src/lib.rs
 // @config name=zeroize features=zeroize
 use super::*;
-use super::__vp_cipher::{any_sm4, eq32, eq_bytes16};
+use super::__vp_cipher::{any_sm4, eq32, eq_bytes16, uftp};
 use cipher::{Array, KeyInit};
 include!("@VERIF@/contracts/_common/common.rs");
 
@@ -27,15 +27,19 @@ fn k_len() {
     assert!(r.is_ok() == (n == 16));
 }
 
-// fixed-size key and the same bytes as a slice give the same cipher (state equality); clone gives equal state
-// @ob name=k_slice_same props=C11,C12 fn=sm4::Sm4::new_from_slice,sm4::Sm4::new,sm4::Sm4::clone uses=c_t_prime timeout=300
+// fixed-size key and the same bytes as a slice give the same cipher (state equality); clone gives equal state.
+// T' abstracted by a record / replay uninterpreted function (cipher.rs; licensed by c_t_prime): the second constructor
+// must present T' with the same arguments in the same order.
+// @ob name=k_slice_same props=C11,C12 fn=sm4::Sm4::new_from_slice,sm4::Sm4::new uses=c_t_prime timeout=300
 #[kani::proof]
-#[kani::stub(t_prime, bcref::sm4::t_prime)]
+#[kani::stub(t_prime, uftp::f)]
 #[kani::unwind(37)]
 fn k_slice_same() {
     let k: [u8; 16] = kani::any();
     let a = Sm4::new(&Array(k));
+    uftp::replay_fwd();
     let b = Sm4::new_from_slice(&k[..]).unwrap();
+    assert!(uftp::done() && uftp::calls() == 32);
     assert!(eq32(&a.rk, &b.rk));
 }
 // @ob name=k_clone props=C12 fn=sm4::Sm4::clone timeout=300
@@ -50,13 +54,15 @@ fn k_clone() {
 // ---------------------------------------------------------------- C13 no weak keys
 // @ob name=c_weak props=C13 fn=sm4::Sm4::weak_key_test,sm4::Sm4::new_checked uses=c_t_prime timeout=300
 #[kani::proof]
-#[kani::stub(t_prime, bcref::sm4::t_prime)]
+#[kani::stub(t_prime, uftp::f)]
 #[kani::unwind(37)]
 fn c_weak() {
     let k: [u8; 16] = kani::any();
     assert!(Sm4::weak_key_test(&Array(k)).is_ok());
+    let plain = Sm4::new(&Array(k));
+    uftp::replay_fwd();
     match Sm4::new_checked(&Array(k)) {
-        Ok(c) => assert!(eq32(&c.rk, &Sm4::new(&Array(k)).rk)),
+        Ok(c) => assert!(uftp::done() && eq32(&c.rk, &plain.rk)),
         Err(_) => assert!(false),
     }
 }
@@ -95,13 +101,41 @@ fn z_sm4_clone() {
 }
 
 // ---------------------------------------------------------------- C04 / C15 multi-block and b2b calls
-// `t` is replaced by its contract (bcref::sm4::t, licensed by c_t), everything else is the real code: n-block in-place
-// and buffer-to-buffer calls give, block by block, the single-block result; b2b inputs, guard blocks around the
-// output and the cipher state are untouched.
+// The single-block backend function is abstracted to an uninterpreted function on the 128-bit block (licensed by
+// cipher.rs c_encrypt / c_decrypt: it is a pure function of (round keys, block)); what is proved is the plumbing of the
+// cipher crate's block-slice entry points over this backend: each block goes through exactly once, in order, b2b
+// inputs are untouched, nothing but the output blocks is written (guard blocks), the cipher state is unchanged.
+pub mod ufb {
+    pub const MAXC: usize = 12;
+    pub static mut IN: [u128; MAXC] = [0; MAXC];
+    pub static mut OUT: [u128; MAXC] = [0; MAXC];
+    pub static mut N: usize = 0;
+    #[allow(static_mut_refs)]
+    pub fn f(x: u128) -> u128 {
+        unsafe {
+            let y: u128 = kani::any();
+            let mut i = 0;
+            while i < N {
+                kani::assume(IN[i] != x || OUT[i] == y); // functional consistency (Ackermann)
+                i += 1;
+            }
+            assert!(N < MAXC);
+            IN[N] = x;
+            OUT[N] = y;
+            N += 1;
+            y
+        }
+    }
+}
+fn uf_block(_c: &Sm4, mut block: InOut<'_, '_, Block<Sm4>>) {
+    let x = u128::from_be_bytes(block.get_in().0);
+    let y = ufb::f(x);
+    *block.get_out() = Array(y.to_be_bytes());
+}
 macro_rules! multi_block {
-    ($name:ident, $n:expr, $one:path, $many:path, $b2b:path) => {
+    ($name:ident, $n:expr, $one:path, $many:path, $b2b:path, $($backend:tt)+) => {
         #[kani::proof]
-        #[kani::stub(t, bcref::sm4::t)]
+        #[kani::stub($($backend)+, uf_block)]
         #[kani::unwind(37)]
         fn $name() {
             let d = any_sm4();
@@ -131,18 +165,19 @@ macro_rules! multi_block {
             let mut i = 0;
             while i < $n { assert!(eq_bytes16(&dst[i + 1].0, &single[i]) && eq_bytes16(&src[i].0, &inp[i])); i += 1; }
             assert!(eq32(&before, &d.rk));
+            assert!(unsafe { ufb::N } == 3 * $n); // the backend really ran once per block and per entry point
         }
     };
 }
-// @ob name=m_enc_blocks_0 props=C04,C15 kind=bounded bound="n = 0 blocks" fn=sm4::Sm4::encrypt_with_backend,sm4::Sm4::encrypt_block uses=c_t timeout=300
-multi_block!(m_enc_blocks_0, 0, cipher::BlockCipherEncrypt::encrypt_block, cipher::BlockCipherEncrypt::encrypt_blocks, cipher::BlockCipherEncrypt::encrypt_blocks_b2b);
-// @ob name=m_enc_blocks_1 props=C04,C15 kind=bounded bound="n = 1 block" fn=sm4::Sm4::encrypt_with_backend,sm4::Sm4::encrypt_block uses=c_t timeout=300
-multi_block!(m_enc_blocks_1, 1, cipher::BlockCipherEncrypt::encrypt_block, cipher::BlockCipherEncrypt::encrypt_blocks, cipher::BlockCipherEncrypt::encrypt_blocks_b2b);
-// @ob name=m_enc_blocks_3 props=C04,C15 kind=bounded bound="n = 3 blocks" fn=sm4::Sm4::encrypt_with_backend,sm4::Sm4::encrypt_block uses=c_t timeout=600
-multi_block!(m_enc_blocks_3, 3, cipher::BlockCipherEncrypt::encrypt_block, cipher::BlockCipherEncrypt::encrypt_blocks, cipher::BlockCipherEncrypt::encrypt_blocks_b2b);
-// @ob name=m_dec_blocks_0 props=C04,C15 kind=bounded bound="n = 0 blocks" fn=sm4::Sm4::decrypt_with_backend,sm4::Sm4::decrypt_block uses=c_t timeout=300
-multi_block!(m_dec_blocks_0, 0, cipher::BlockCipherDecrypt::decrypt_block, cipher::BlockCipherDecrypt::decrypt_blocks, cipher::BlockCipherDecrypt::decrypt_blocks_b2b);
-// @ob name=m_dec_blocks_1 props=C04,C15 kind=bounded bound="n = 1 block" fn=sm4::Sm4::decrypt_with_backend,sm4::Sm4::decrypt_block uses=c_t timeout=300
-multi_block!(m_dec_blocks_1, 1, cipher::BlockCipherDecrypt::decrypt_block, cipher::BlockCipherDecrypt::decrypt_blocks, cipher::BlockCipherDecrypt::decrypt_blocks_b2b);
-// @ob name=m_dec_blocks_3 props=C04,C15 kind=bounded bound="n = 3 blocks" fn=sm4::Sm4::decrypt_with_backend,sm4::Sm4::decrypt_block uses=c_t timeout=600
-multi_block!(m_dec_blocks_3, 3, cipher::BlockCipherDecrypt::decrypt_block, cipher::BlockCipherDecrypt::decrypt_blocks, cipher::BlockCipherDecrypt::decrypt_blocks_b2b);
+// @ob name=m_enc_blocks_0 props=C04,C15 kind=bounded bound="n = 0 blocks" fn=sm4::Sm4::encrypt_with_backend,sm4::Sm4::encrypt_block uses=c_encrypt,c_decrypt timeout=300
+multi_block!(m_enc_blocks_0, 0, cipher::BlockCipherEncrypt::encrypt_block, cipher::BlockCipherEncrypt::encrypt_blocks, cipher::BlockCipherEncrypt::encrypt_blocks_b2b, <Sm4 as BlockCipherEncBackend>::encrypt_block);
+// @ob name=m_enc_blocks_1 props=C04,C15 kind=bounded bound="n = 1 block" fn=sm4::Sm4::encrypt_with_backend,sm4::Sm4::encrypt_block uses=c_encrypt,c_decrypt timeout=300
+multi_block!(m_enc_blocks_1, 1, cipher::BlockCipherEncrypt::encrypt_block, cipher::BlockCipherEncrypt::encrypt_blocks, cipher::BlockCipherEncrypt::encrypt_blocks_b2b, <Sm4 as BlockCipherEncBackend>::encrypt_block);
+// @ob name=m_enc_blocks_3 props=C04,C15 kind=bounded bound="n = 3 blocks" fn=sm4::Sm4::encrypt_with_backend,sm4::Sm4::encrypt_block uses=c_encrypt,c_decrypt timeout=300
+multi_block!(m_enc_blocks_3, 3, cipher::BlockCipherEncrypt::encrypt_block, cipher::BlockCipherEncrypt::encrypt_blocks, cipher::BlockCipherEncrypt::encrypt_blocks_b2b, <Sm4 as BlockCipherEncBackend>::encrypt_block);
+// @ob name=m_dec_blocks_0 props=C04,C15 kind=bounded bound="n = 0 blocks" fn=sm4::Sm4::decrypt_with_backend,sm4::Sm4::decrypt_block uses=c_encrypt,c_decrypt timeout=300
+multi_block!(m_dec_blocks_0, 0, cipher::BlockCipherDecrypt::decrypt_block, cipher::BlockCipherDecrypt::decrypt_blocks, cipher::BlockCipherDecrypt::decrypt_blocks_b2b, <Sm4 as BlockCipherDecBackend>::decrypt_block);
+// @ob name=m_dec_blocks_1 props=C04,C15 kind=bounded bound="n = 1 block" fn=sm4::Sm4::decrypt_with_backend,sm4::Sm4::decrypt_block uses=c_encrypt,c_decrypt timeout=300
+multi_block!(m_dec_blocks_1, 1, cipher::BlockCipherDecrypt::decrypt_block, cipher::BlockCipherDecrypt::decrypt_blocks, cipher::BlockCipherDecrypt::decrypt_blocks_b2b, <Sm4 as BlockCipherDecBackend>::decrypt_block);
+// @ob name=m_dec_blocks_3 props=C04,C15 kind=bounded bound="n = 3 blocks" fn=sm4::Sm4::decrypt_with_backend,sm4::Sm4::decrypt_block uses=c_encrypt,c_decrypt timeout=300
+multi_block!(m_dec_blocks_3, 3, cipher::BlockCipherDecrypt::decrypt_block, cipher::BlockCipherDecrypt::decrypt_blocks, cipher::BlockCipherDecrypt::decrypt_blocks_b2b, <Sm4 as BlockCipherDecBackend>::decrypt_block);
